@@ -102,8 +102,8 @@ class Interp:
                 else:
                     raise Reject(pos, 'unknown-option')
             d = o.d
-            if d.simple:
-                raise Unspec('simple option')
+            if d.simple and (d.is_list or d.typ not in ('int', 'float', 'bool', 'str')):
+                raise Unspec('simple option of this kind')
             if d.typ == 'sec':
                 pos = self.section(sec, o, toks, pos + 1, level)
             elif d.typ == 'func':
@@ -132,6 +132,11 @@ class Interp:
         if not d.is_list:
             self.need(toks, pos, STR, 'unexpected-token', 'scalar-value')
             v = self.convert(o, toks[pos][2], pos)
+            if d.simple:
+                o.sv = v
+                o.mod = True
+                self.validate(o, pos)
+                return pos + 1
             o.vals = [v]
             o.mod = True
             self.validate(o, pos)
